@@ -518,9 +518,95 @@ def run_case(case):
         shutil.rmtree(d, ignore_errors=True)
 
 
+def run_args_case(case):
+    """One MergeArgs.tla case: two conforming inputs, one argument rule violated (or none), then the corrected merge."""
+    warnings.simplefilter('ignore')
+    d = Path(tempfile.mkdtemp(prefix='c10a-'))
+    TS = _aeic()[0]
+    devs = []
+    try:
+        c, o = case['c'], case['o']
+        ins = [{'n': 2, 'ids': False, 'fs': 'A'}, {'n': 1, 'ids': False, 'fs': 'A'}]
+        form, kind, pos = c['form'], c['kind'], c['pos']
+        paths, _ = make_inputs(d, ins, False, form=form)
+        out = d / 'merged.aeic-store'
+        good_kw = merge_kwargs(form, paths, d)
+        kw = dict(good_kw)
+        output = out
+        moved = None
+        if kind == 'both_forms':
+            kw['input_stores'] = list(paths)
+        elif kind == 'pattern_without_range':
+            del kw['input_stores_index_range']
+        elif kind == 'missing_input':
+            moved = (paths[pos - 1], d / 'elsewhere.nc')
+            os.rename(*moved)
+        elif kind == 'not_netcdf_input':
+            # the same store under a name that is not "*.nc"
+            if form == 'list':
+                moved = (paths[pos - 1], d / (paths[pos - 1].stem + '.dat'))
+                os.rename(*moved)
+                kw['input_stores'] = [moved[1] if p == moved[0] else p for p in paths]
+            else:
+                for p in paths:
+                    os.rename(p, p.with_suffix('.dat'))
+                kw['input_stores_pattern'] = Path(str(kw['input_stores_pattern'])[: -len('.nc')] + '.dat')
+        elif kind == 'bad_output_suffix':
+            output = d / 'merged.store'
+        elif kind == 'output_exists':
+            out.mkdir()
+            (out / 'keep.txt').write_text('x')
+        before = sorted(str(x.relative_to(d)) for x in d.rglob('*'))
+        try:
+            TS.merge(output_store=output, **kw)
+            got = 'merged'
+        except ValueError:
+            got = 'refused'
+        except Exception as e:
+            got = f'raised {type(e).__name__}: {e}'
+        what = f'merge with {kind} ({form} form, input {pos})'
+        if got != o['verdict']:
+            return [('C10', f'args:{kind}:{o["verdict"]}->{got.split(":")[0].split()[0]}', f'{what}: {got}; specification: {o["verdict"]}')]
+        if got == 'refused':
+            after = sorted(str(x.relative_to(d)) for x in d.rglob('*'))
+            if after != before:
+                devs.append(('C10', f'args:{kind}:refusal-not-clean', f'{what}: the refused merge changed the directory: {before} -> {after}'))
+            # correct the cause, retry
+            if moved is not None and kind in ('missing_input', 'not_netcdf_input') and form == 'list':
+                os.rename(moved[1], moved[0])
+            elif moved is not None:
+                os.rename(moved[1], moved[0])
+            if kind == 'not_netcdf_input' and form == 'pattern':
+                for p in paths:
+                    os.rename(p.with_suffix('.dat'), p)
+            if kind == 'output_exists':
+                shutil.rmtree(out)
+            try:
+                TS.merge(output_store=out, **good_kw)
+            except Exception as e:
+                return devs + [('C10', f'args:{kind}:retry-after-refusal-failed', f'{what}: after correcting the cause the merge failed: {type(e).__name__}: {e}')]
+        c2 = {'ins': ins, 'total': 3, 'indexed': False, 'expect': [[1, 0], [1, 1], [2, 0]]}
+        devs += [(('C10' if pr == 'C09' else pr), 'args:' + key, f'{what}, then the corrected merge: ' + desc) for pr, key, desc in check_merged(out, c2)]
+        return devs
+    except MachineryError as e:
+        return [('machinery', 'machinery', str(e))]
+    except Exception as e:
+        import traceback
+
+        return [('machinery', 'machinery', f'{type(e).__name__}: {e}\n{traceback.format_exc()}')]
+    finally:
+        gc.collect()
+        shutil.rmtree(d, ignore_errors=True)
+
+
 def run_merge(ctx: Ctx, pid: str):
     if ctx.replay:
         case = json.loads(Path(ctx.replay).read_text())['case']
+        if 'merge_args' in case:
+            for prop, what, desc in run_args_case(case['merge_args']):
+                if prop == pid:
+                    ctx.violation(f'merge:{what}', desc, case)
+            return
         if 'merge_case' not in case:
             return
         cases = [case['merge_case']]
@@ -538,6 +624,19 @@ def run_merge(ctx: Ctx, pid: str):
             ctx.rng.shuffle(rest)
             cases = keep[:500] + rest[:150]
         ctx.exhaustive = not ctx.quick
+    if pid == 'C10' and not ctx.replay:
+        # the argument rules of merge (MergeArgs.tla): every rule x both ways of naming the inputs
+        tlc.check(ctx, 'store/MergeArgs', 'store/MC_MergeArgs.cfg', workers=2)
+        acases = tlc.check(ctx, 'store/MergeArgs', 'store/Gen_MergeArgs.cfg', workers=1)['emitted']
+        seen = set()
+        acases = [a for a in acases if not (json.dumps(a['c'], sort_keys=True) in seen or seen.add(json.dumps(a['c'], sort_keys=True)))]
+        for a, devs in zip(acases, pmap(run_args_case, acases, procs=4)):
+            ctx.case_done(('merge_args', a['c']), nontrivial=a['c']['kind'] != 'none')
+            for prop, what, desc in devs:
+                if prop == 'machinery':
+                    raise MachineryError('merge worker failed: ' + desc)
+                if prop == pid:
+                    ctx.violation(f'merge:{what}', desc, {'merge_args': a})
     ctx.log(f'running {len(cases)} merge cases against the real store')
     results = pmap(run_case, cases)
     traces, owner = [], {}
